@@ -8,7 +8,7 @@ from harness import build, gen, simnet
 from harness.runner import Prop, held, failed
 from props.c09 import base_script
 
-MECHANISMS = ("break", "raise", "gen_close", "with_exit")
+MECHANISMS = ("break", "raise", "gen_close", "with_exit", "gen_close_other_thread", "drop_in_other_thread")
 
 
 def _closed_by_library(st):
@@ -48,8 +48,9 @@ class C13(Prop):
     level = "fault_enumeration"
     rule = ("for each generated base scenario (messages, pings, idle periods giving top-of-loop Polls, ping timeout giving "
             "Unresponsive, closing handshakes, plain or TLS-wrapped socket, optionally one failing write) the unabandoned run is recorded, then the consumer "
-            "abandons the loop at EVERY event index by each of four mechanisms (break = generator dropped, handler raises, "
-            "gen.close(), exception leaving a with-block); all harness references to the generator are dropped and the socket and "
+            "abandons the loop at EVERY event index by each of six mechanisms (break = generator dropped, handler raises, "
+            "gen.close(), exception leaving a with-block, gen.close() called by ANOTHER thread, last reference dropped on another "
+            "thread); all harness references to the generator are dropped and the socket and "
             "(if created) the selector must be released while the WebSocket object is still alive. Non-trivial = abandonment after "
             "Connected. Each abandonment is one evaluation.")
     assumptions = ("socket released = close() was called on it (finalisation alone counts only after a reset, where "
